@@ -512,6 +512,8 @@ def _low_zero_bits(v: Any) -> int:
         return min(best, 64)
     if z3.is_add(t):
         return min(_low_zero_bits(mk_int(ch)) for ch in t.children())
+    if z3.is_app_of(t, z3.Z3_OP_ITE):
+        return min(_low_zero_bits(mk_int(t.arg(1))), _low_zero_bits(mk_int(t.arg(2))))
     return 0
 
 
